@@ -77,7 +77,7 @@ def modsOk (mods : List (List UInt8 × List UInt8)) : Bool :=
   mods.all fun p => !p.1.contains (0x0a : UInt8) && !p.2.contains (0x0a : UInt8) && Lex.escapeAsciiOk p.1 && Lex.escapeAsciiOk p.2
 
 /-- the hypothesis `FloatOK`, on one formatted float: newline-free and accepted by the FLOAT reader -/
-def floatOk (t : List UInt8) : Bool := !t.contains (0x0a : UInt8) && Lex.pyFloatOk t
+def floatOk (t : List UInt8) : Bool := !t.contains (0x0a : UInt8) && Lex.pyFloatOk t && t.all (· < 0x80)
 
 end Spec
 end PFV
